@@ -210,6 +210,8 @@ def build(c, rng, workdir):
         shp2 = (2 * shape[0] + 1,) + shape[1:]
         nn = int(np.prod(shp2, dtype=np.int64))
         return fill(dt, nn, rng).reshape(shp2)[::2][: shape[0]]
+    if lay == "zeros":                   # several MiB of zeros: one 8 KiB block of the zlib/gzip file inflates to MiBs
+        return np.zeros(shape, dtype=dt)
     base = fill(dt, n, rng).reshape(shape)
     if lay == "C":
         return base
